@@ -57,10 +57,14 @@ def c06_factor(ctx, dim, a):
     table = si.DIMENSIONS[dim]
     ua = getattr(p.Unit, a)
     q = ua(v)
+    first_read = q.unit_value
+    ctx.check_eq('factor', first_read, v, rel=1e-6, info={'from': a, 'to': a, 'via': 'unit_value'})
     for b in enum_units()[dim]:
         got = q >> getattr(p.Unit, b)
         want = v * (table[a] / table[b])
         ctx.check_eq('factor', got, want, rel=1e-6, info={'from': a, 'to': b})
+        # the same reading through an in-place re-display and unit_value (after an earlier unit_value read)
+        ctx.check_eq('factor', (q << getattr(p.Unit, b)).unit_value, want, rel=1e-6, info={'from': a, 'to': b, 'via': '<< then unit_value'})
 
 
 @harness('C06.angle_factor', 'C06', configs=lambda tier: _pairs(tier, ['Angular']), functions=FUNCS,
